@@ -92,7 +92,7 @@ func checkBigDirectory(cs scalekit.Case) scalekit.Verdict {
 	for _, c := range []struct {
 		req, viaImport string
 	}{{"lib@2019-03-07", ""}, {"lib@2021-11-23", ""}, {"lib", ""}, {"", "user"}, {"", "user2"}, {"libx", ""}} {
-		ms := yang.NewModules()
+		ms := scalekit.NewModules()
 		ms.AddPath(dir)
 		req := c.req
 		want := ""
@@ -172,9 +172,9 @@ func checkRevisionDefinitions(cs scalekit.Case) scalekit.Verdict {
 		return dump.File{Name: name + ".yang", Text: fmt.Sprintf(`module %s { namespace "urn:%s"; prefix %s; import a { prefix p;%s } leaf l { type p:t; } typedef mine { type p:t; } leaf l2 { type mine; } container c { uses p:g; } identity d { base p:i; } leaf r { type identityref { base p:i; } } }`, name, name, name, pin)}
 	}
 	files = append(files, user("uo", " revision-date 2020-01-01;"), user("un", " revision-date 2021-06-06;"), user("uu", ""))
-	ms := yang.NewModules()
+	ms := scalekit.NewModules()
 	for _, i := range ord {
-		if err := ms.Parse(files[i].Text, files[i].Name); err != nil {
+		if err := ms.Parse(scalekit.Text(files[i].Text), files[i].Name); err != nil {
 			return scalekit.Bad("load-rejected-must-accept", "loads", files[i].Name+": "+err.Error())
 		}
 	}
@@ -237,9 +237,9 @@ func checkScale(cs scalekit.Case) scalekit.Verdict {
 		newer := dump.File{Name: "newer.yang", Text: `module m { namespace "urn:m"; prefix m; revision 2999-01-01; leaf new { type string; } }`}
 		latest := fmt.Sprintf("m@%04d-01-01", 2000+cs.N)
 		for _, files := range [][]dump.File{{scale.Counts(cs.N), older}, {older, scale.Counts(cs.N)}, {newer, scale.Counts(cs.N), older}} {
-			ms := yang.NewModules()
+			ms := scalekit.NewModules()
 			for _, f := range files {
-				if err := ms.Parse(f.Text, f.Name); err != nil {
+				if err := ms.Parse(scalekit.Text(f.Text), f.Name); err != nil {
 					return scalekit.Bad("load-rejected-must-accept", "three different revisions load", err.Error())
 				}
 			}
@@ -307,7 +307,7 @@ func checkScale(cs scalekit.Case) scalekit.Verdict {
 	os.WriteFile(filepath.Join(dirs[j], "u.yang"), mod("u", "u", "import x { prefix x; }"), 0o644)
 	want := fmt.Sprintf("p%02d/x.yang", i)
 	for _, seq := range [][]string{{"y", "x"}, {"filler0", "y", "u"}, {"u"}, {"y", "filler0", "x"}} {
-		ms := yang.NewModules()
+		ms := scalekit.NewModules()
 		ms.AddPath(dirs...)
 		for _, name := range seq {
 			if err := ms.Read(name); err != nil {
